@@ -217,6 +217,31 @@ func (p *Prog) callees(site ssa.CallInstruction, unwrap bool) []*ssa.Function {
 		}
 		return []*ssa.Function{mc.Fn.(*ssa.Function)}
 	}
+	// a call of a function-typed parameter of a helper whose call sites are all known: the callees are what those
+	// sites pass (CHA would answer "every func() whose address is taken")
+	if par, ok := p.origin(site.Common().Value).(*ssa.Parameter); ok && !site.Common().IsInvoke() {
+		if args, _, closed := p.argsForParam(par); closed && len(args) > 0 {
+			var out []*ssa.Function
+			all := true
+			for _, a := range args {
+				switch x := p.origin(a).(type) {
+				case *ssa.MakeClosure:
+					f := x.Fn.(*ssa.Function)
+					if unwrap {
+						f = unwrapSynthetic(f)
+					}
+					out = append(out, f)
+				case *ssa.Function:
+					out = append(out, x)
+				default:
+					all = false
+				}
+			}
+			if all {
+				return out
+			}
+		}
+	}
 	n := p.CG().Nodes[site.Parent()]
 	if n == nil {
 		return nil
